@@ -2,6 +2,7 @@ CONSTANTS
   N = 2
   MaxTasks = 1
   G = 1
+  Stops = 1
   Dev = {"ShutdownPerStop2"}
 SPECIFICATION Spec
 CHECK_DEADLOCK FALSE
